@@ -157,7 +157,7 @@ INT_REPRS = ['u8', 'i8', 'u16', 'i16', 'i32', 'u32', 'i64', 'u64', 'isize', 'usi
 def fits(repr_, vals):
     rng = {'u8': (0, 255), 'i8': (-128, 127), 'u16': (0, 65535), 'i16': (-32768, 32767), 'i32': (-2**31, 2**31 - 1),
            'u32': (0, 2**32 - 1), 'i64': (-2**63, 2**63 - 1), 'u64': (0, 2**64 - 1), 'isize': (-2**63, 2**63 - 1),
-           'usize': (0, 2**64 - 1), None: (-2**63, 2**63 - 1), 'C': (-2**31, 2**31 - 1)}
+           'usize': (0, 2**64 - 1), None: (-2**63, 2**63 - 1), 'C': (-2**31, 2**31 - 1), 'i128': (-2**127, 2**127 - 1), 'u128': (0, 2**127 - 1)}
     base = repr_.split(',')[-1].strip() if repr_ else None
     lo, hi = rng.get(base, rng[None])
     return all(lo <= v <= hi for v in vals)
@@ -268,6 +268,7 @@ def quick_configs(seed):
             (['none', 'none', 'none'], 'isize', [-1, None, None]), (['none', 'none'], None, [256, 1]), (['none', 'none'], None, [65535, 2]),
             (['none', 'none', 'none'], None, [32767, -32768, 40000]), (['none'] * 5, None, [10, None, 3, None, 5]), (['none'] * 4, None, [5, 1, None, 3]),
             (['u8', 'none', 'bool', 'none', 'u8'], 'i16', [None, 7, None, 2, None]), (['none'] * 4, 'i8', [-3, None, -9, None]), (['none', 'none'], 'u32', [4294967295, 0]), (['none', 'none'], None, [2147483648, -1]),
+            (['none', 'none'], 'i128', [2**127 - 1, -2**127]), (['u8', 'none', 'bool'], 'u128', [2**100, 5, None]), (['none', 'u8'], 'i128', [-2**127, None]),
             (['ign', 'none', 'u8'], None, None), (['none', 'empt', 'none'], None, None), (['empn', 'ign', 'none'], None, None), (['ign', 'none', 'none'], 'u8', [5, None, None]),
             (['empt', 'empn', 'u8'], 'i16', [3, None, None]), (['u8', 'ign', 'empt', 'none'], None, None),
             (['opt', 'opt'], None, None), (['bool', 'bool'], None, None), (['char', 'char', 'none'], None, None), (['none', 'none', 'none'], None, [2, 1, 0])]
@@ -300,7 +301,7 @@ def gen(tier, seed):
 RULE = ('one config = one enum definition (payload types x repr x explicit discriminants) x deriving mode {Ord+PartialOrd educed, stand-alone PartialOrd, Ord educed with hand-written PartialOrd}; '
         'inside a config both values (variant and payload) and the 4 neighbour bytes behind each value are arbitrary; CBMC pointer checks are on, so an out-of-bounds tag read fails even when the answer is right. '
         'Non-trivial = harness passed and the Less/Equal/Greater/different-variant witnesses that the config admits were all SATISFIED.')
-BOUNDS = dict(max_variants='3 (5 for the non-ascending explicit/implicit discriminant sets)', payload_types=sorted(PAYLOADS.keys()), reprs=['none', 'u8', 'i8', 'u16', 'i16', 'i32', 'u32', 'i64', 'u64', 'isize', 'usize', 'C', 'C, u8'],
+BOUNDS = dict(max_variants='3 (5 for the non-ascending explicit/implicit discriminant sets)', payload_types=sorted(PAYLOADS.keys()), reprs=['none', 'u8', 'i8', 'u16', 'i16', 'i32', 'u32', 'i64', 'u64', 'isize', 'usize', 'i128', 'u128 (values up to 2^127-1)', 'C', 'C, u8'],
               discriminant_sets=[str(d) for d in DSETS], neighbour_bytes=4,
               constant_expression_discriminants=[str(x) for x in EXPR_DSETS],
               outside=['payload types outside the list', 'repr(packed)/repr(align)', 'targets other than x86_64', 'discriminant expressions outside the listed ones'])
